@@ -2,6 +2,7 @@ package check
 
 import (
 	"fmt"
+	"go/ast"
 	"go/constant"
 	"go/token"
 	"go/types"
@@ -1236,4 +1237,182 @@ func runEqDeep(c *Ctx, r *Reporter) {
 func isLenCall(c *ssa.Call) bool {
 	bi, ok := c.Call.Value.(*ssa.Builtin)
 	return ok && bi.Name() == "len"
+}
+
+// R-WSSKEEP: a binary expression parsed where white space separates list elements is printed without spaces.
+//
+// Inside `[a+b c]`, an argument list or a print statement, `a+b` is one element only because it contains no space.
+// The parser marks every binary expression it builds in such a context (recordWSS on the edge where isWSS() holds, on
+// every path that returns the node), and the formatter writes the space around the operator only for unmarked nodes,
+// on both sides alike. A node that is not marked, or a space that is written regardless, turns one element into three.
+var ruleWSSKeep = &Rule{
+	ID: "R-WSSKEEP",
+	Doc: "every binary expression built while white space separates elements is recorded (on every returning path behind the true edge of isWSS()), writeWSS writes its space only for unrecorded nodes, " +
+		"and the formatter puts writeWSS on both sides of the operator and no other space",
+	Floor: 3,
+	Run:   runWSSKeep,
+}
+
+func runWSSKeep(c *Ctx, r *Reporter) {
+	p, pkg := parserPkg(c, r)
+	if pkg == nil {
+		return
+	}
+	// (a) recording
+	if fd := FindFunc(pkg, "(*parser).parseBinaryExpr"); fd != nil {
+		sf := p.SSAFunc(fd.Obj)
+		var rec *ssa.Call
+		var node *ssa.Alloc
+		for _, b := range sf.Blocks {
+			for _, ins := range b.Instrs {
+				switch x := ins.(type) {
+				case *ssa.Call:
+					if sc := x.Call.StaticCallee(); sc != nil && sc.Name() == "recordWSS" {
+						rec = x
+					}
+				case *ssa.Alloc:
+					if n := allocElemNamed(x); n != nil && n.Obj().Name() == "BinaryExpression" {
+						node = x
+					}
+				}
+			}
+		}
+		good, why := false, "parseBinaryExpr never records the node for the formatter"
+		if rec != nil && node != nil {
+			why = "the node is not recorded exactly on the edge where isWSS() holds"
+			// recorded node is the node built here
+			if len(rec.Call.Args) == 2 && rec.Call.Args[1] == ssa.Value(node) {
+				for d := rec.Block(); d != nil; d = d.Idom() {
+					id := d.Idom()
+					if id == nil || len(id.Instrs) == 0 {
+						continue
+					}
+					ifi, ok := id.Instrs[len(id.Instrs)-1].(*ssa.If)
+					if !ok {
+						continue
+					}
+					if call, ok := ifi.Cond.(*ssa.Call); ok && call.Call.StaticCallee() != nil && call.Call.StaticCallee().Name() == "isWSS" && edgeDominates(id, 0, rec.Block()) {
+						// every return of the node passes this test: the test block dominates the returning blocks
+						all := true
+						for _, ret := range returnsOf(sf) {
+							for _, rv := range resultValues(ret, 0) {
+								if mi, ok := rv.(*ssa.MakeInterface); ok && mi.X == ssa.Value(node) && !id.Dominates(ret.Block()) {
+									all = false
+								}
+							}
+						}
+						// and nothing between the test's true edge and the join skips the call: the call is in the edge's block
+						if all && id.Succs[0] == rec.Block() {
+							good = true
+						} else {
+							why = "a path returns the node without passing the isWSS() test and its recordWSS call"
+						}
+					}
+				}
+			}
+		}
+		r.Check(good, fd.QName()+"#records-wss", p.Rel(fd.Decl.Pos()), "the node is recorded on the edge where white space separates elements, on every returning path",
+			why+": `[a+b c]` would be printed as `[a + b c]`, which is a list of four elements")
+	} else {
+		r.Undecided("(*parser).parseBinaryExpr not found")
+	}
+	// (b) writeWSS
+	if fd := FindFunc(pkg, "(*formatting).writeWSS"); fd != nil {
+		sf := p.SSAFunc(fd.Obj)
+		good := false
+		nWrites := 0
+		for _, b := range sf.Blocks {
+			for _, ins := range b.Instrs {
+				call, ok := ins.(*ssa.Call)
+				if !ok || call.Call.StaticCallee() == nil || call.Call.StaticCallee().Name() != "write" {
+					continue
+				}
+				nWrites++
+				for d := b; d != nil; d = d.Idom() {
+					id := d.Idom()
+					if id == nil || len(id.Instrs) == 0 {
+						continue
+					}
+					ifi, ok := id.Instrs[len(id.Instrs)-1].(*ssa.If)
+					if !ok {
+						continue
+					}
+					cond, neg := ifi.Cond, false
+					if u, ok := cond.(*ssa.UnOp); ok && u.Op == token.NOT {
+						cond, neg = u.X, true
+					}
+					if lk, ok := cond.(*ssa.Lookup); ok && loadsField(lk.X, "wss") && len(sf.Params) == 2 && lk.Index == ssa.Value(sf.Params[1]) {
+						edge := 1
+						if neg {
+							edge = 0
+						}
+						if edgeDominates(id, edge, b) {
+							good = true
+						}
+					}
+				}
+			}
+		}
+		r.Check(good && nWrites == 1, fd.QName()+"#space-only-if-unrecorded", p.Rel(fd.Decl.Pos()), "the space is written only for nodes that were not recorded", "writeWSS writes its space on a path where the node was recorded as white-space sensitive (or unconditionally)")
+	} else {
+		r.Undecided("(*formatting).writeWSS not found")
+	}
+	// (c) the formatter's case: writeWSS, operator, writeWSS — and no literal space
+	if fd := FindFunc(pkg, "(*formatting).format"); fd != nil {
+		tss := typeSwitches(pkg.TypesInfo, fd.Decl.Body, func(ast.Expr) bool { return true })
+		found := false
+		for _, ts := range tss {
+			cases, _ := typeSwitchCases(pkg.TypesInfo, ts)
+			for tn, cc := range cases {
+				if tn.Name() != "BinaryExpression" {
+					continue
+				}
+				found = true
+				var seq []string
+				for _, st := range cc.Body {
+					ast.Inspect(st, func(n ast.Node) bool {
+						call, ok := n.(*ast.CallExpr)
+						if !ok {
+							return true
+						}
+						cf := calleeFunc(pkg.TypesInfo, call)
+						if cf == nil {
+							return true
+						}
+						switch cf.Name() {
+						case "writeWSS":
+							seq = append(seq, "wss")
+						case "format":
+							if len(call.Args) == 1 {
+								name := types.ExprString(call.Args[0])
+								if sel, ok := ast.Unparen(call.Args[0]).(*ast.SelectorExpr); ok {
+									name = sel.Sel.Name
+								}
+								seq = append(seq, "format:"+name)
+							}
+						case "write", "writes":
+							lit := false
+							for _, a := range call.Args {
+								if s, ok := constString(pkg.TypesInfo, a); ok && strings.Contains(s, " ") {
+									lit = true
+								}
+							}
+							if lit {
+								seq = append(seq, "space")
+							} else {
+								seq = append(seq, "op")
+							}
+						}
+						return true
+					})
+				}
+				got := strings.Join(seq, " ")
+				r.Check(got == "format:Left wss op wss format:Right", fd.QName()+"#case:BinaryExpression", p.Rel(cc.Pos()), "left, optional space, operator, optional space, right",
+					"the formatter prints a binary expression as `"+got+"`, expected `format:Left wss op wss format:Right`: a space that does not go through writeWSS (or only on one side) splits or joins list elements")
+			}
+		}
+		if !found {
+			r.Undecided("(*formatting).format has no case for BinaryExpression")
+		}
+	}
 }
